@@ -12,3 +12,4 @@ PROPS['C19'] = ('sched_family', 'c19')
 PROPS['C11'] = ('sched_family', 'c11')
 PROPS['C10'] = ('sched_family', 'c10')
 PROPS['C15'] = ('core_family', 'c15')
+PROPS['C13'] = ('core_family', 'c13')
